@@ -485,22 +485,26 @@ Qed.
 Theorem program_order syms stmts names prog :
   program_of_symbols syms stmts = Some (names, prog) ->
   names = names_of syms /\
-  Forall2 (fun s st => exists n eq i k0 e,
-             sname s = Some n /\ In eq stmts /\
-             stmt_of_equation (row_of names) eq = Some (n, st) /\
-             st = SAssign i k0 e /\ row_of names n = Some i)
+  Forall2 (fun s st => exists i k0 e, st = SAssign i k0 e /\
+             ((exists n eq, sname s = Some n /\ In eq stmts /\
+                            stmt_of_equation (row_of names) eq = Some (n, st) /\ row_of names n = Some i) \/
+              (sname s = None /\ exists c y, scode s = Some c /\
+                            stmt_of_code (row_of names) c = Some (y, st) /\ row_of names y = Some i)))
           (filter emits syms) prog.
 Proof.
   unfold program_of_symbols.
-  destruct (existsb (fun s => type_eqb (stype s) TVerbatim) syms); [discriminate|].
-  destruct (all_some (map (stmt_of_equation (row_of (names_of syms))) stmts)) as [defs|] eqn:Ed; [|discriminate].
-  destruct (all_some (map (fun s => match sname s with Some n => assoc_stmt n defs | None => None end) (filter emits syms)))
-    as [p|] eqn:Ep; [|discriminate].
+  destruct (all_some (map (stmt_of_equation (row_of (names_of syms)))
+                          (filter (fun st => negb (head_is "`" st && last_is "`" st)) stmts))) as [defs|] eqn:Ed; [|discriminate].
+  match goal with |- match all_some (map ?g _) with _ => _ end = _ -> _ =>
+    destruct (all_some (map g (filter emits syms))) as [p|] eqn:Ep; [|discriminate] end.
   intros H; inversion H; subst. split; [reflexivity|].
   apply all_some_forall2 in Ep. apply all_some_forall2 in Ed.
-  eapply forall2_impl; [|exact Ep]. intros s st Hs. cbn beta in Hs.
-  destruct (sname s) as [n|]; [|discriminate].
-  apply assoc_stmt_in in Hs. destruct (forall2_in_r _ _ _ _ Ed Hs) as (eq & Hin & Heq).
-  destruct st as [i k0 e]. destruct (statement_terms_exact _ _ _ _ _ _ Heq) as [Hrow _].
-  exists n, eq, i, k0, e. repeat split; auto.
+  eapply forall2_impl; [|exact Ep]. intros s st Hs. cbn beta in Hs. destruct st as [i k0 e]. exists i, k0, e. split; [reflexivity|].
+  destruct (sname s) as [n|].
+  - left. apply assoc_stmt_in in Hs. destruct (forall2_in_r _ _ _ _ Ed Hs) as (eq & Hin & Heq).
+    destruct (statement_terms_exact _ _ _ _ _ _ Heq) as [Hrow _].
+    exists n, eq. repeat split; auto. apply filter_In in Hin. exact (proj1 Hin).
+  - right. split; [reflexivity|]. destruct (scode s) as [c|]; [|discriminate].
+    destruct (stmt_of_code (row_of (names_of syms)) c) as [[y st']|] eqn:Ec; [|discriminate]. inversion Hs; subst.
+    exists c, y. repeat split; auto. unfold stmt_of_code in Ec. exact (proj1 (stmt_of_tokens_reads _ _ _ _ _ _ Ec)).
 Qed.
